@@ -1,1 +1,306 @@
-(* placeholder *)
+(* Proofs/Tables.v : lemmas about Model/Tables.v (C17; row_ok is reused by C16) *)
+From Coq Require Import ZArith QArith Qminmax List String Bool Lia Lqa.
+From Allfed Require Import Base.StrUtil Model.Tables.
+Import ListNotations.
+Open Scope Q_scope.
+Open Scope string_scope.
+
+(* ------------------------------------------------------------------ comparisons *)
+
+Lemma Qlt_b_true x y : Qlt_b x y = true <-> x < y.
+Proof.
+  unfold Qlt_b. rewrite negb_true_iff. split; intro H.
+  - destruct (Qlt_le_dec x y) as [L|L]; auto. apply Qle_bool_iff in L. congruence.
+  - destruct (Qle_bool y x) eqn:E; auto. apply Qle_bool_iff in E. lra.
+Qed.
+
+Lemma Qlt_b_false x y : Qlt_b x y = false <-> y <= x.
+Proof.
+  unfold Qlt_b. rewrite negb_false_iff. apply Qle_bool_iff.
+Qed.
+
+Lemma o_le_some a v : o_le (Some a) v = true -> exists x, v = Some x /\ a <= x.
+Proof. destruct v as [x|]; simpl; [|discriminate]. intro H. exists x. split; auto. now apply Qle_bool_iff. Qed.
+
+Lemma o_le_some_r v b : o_le v (Some b) = true -> exists x, v = Some x /\ x <= b.
+Proof. destruct v as [x|]; simpl; [|discriminate]. intro H. exists x. split; auto. now apply Qle_bool_iff. Qed.
+
+Lemma o_lt_some a v : o_lt (Some a) v = true -> exists x, v = Some x /\ a < x.
+Proof. destruct v as [x|]; simpl; [|discriminate]. intro H. exists x. split; auto. now apply Qlt_b_true. Qed.
+
+(* ------------------------------------------------------------------ what row_ok means *)
+
+(* the property of one cell, by column class *)
+Definition cell_prop (c : string) (x : Q) : Prop :=
+  if prefix "crop_reduction_year" c then -1 - eps8 < x
+  else if prefix "grasses_reduction_year" c then -1 <= x
+  else if is_fraction c then 0 <= x /\ x <= 1
+  else 0 <= x.
+
+Lemma cell_extra_ok_spec c v : cell_extra_ok (c, v) = true -> exists x, v = Some x /\ cell_prop c x.
+Proof.
+  unfold cell_extra_ok, cell_prop.
+  destruct (prefix "crop_reduction_year" c).
+  - intro H. apply o_lt_some in H. exact H.
+  - destruct (prefix "grasses_reduction_year" c).
+    + intro H. apply o_le_some in H. exact H.
+    + destruct (is_fraction c).
+      * intro H. apply andb_true_iff in H as [H1 H2].
+        apply o_le_some in H1 as [x [-> Hx]]. apply o_le_some_r in H2 as [y [Hy Hy1]].
+        inversion Hy; subst. exists y; auto.
+      * intro H. apply o_le_some in H. exact H.
+Qed.
+
+(* no cell is missing; every cell satisfies the clause of its class; the seasonality shares sum to 1 within 1e-9 *)
+Lemma row_ok_spec r : row_ok r = true ->
+  (forall c v, In (c, v) (cells r) -> exists x, v = Some x /\ cell_prop c x) /\
+  (exists s, seasonality_sum r = Some s /\ - seas_tol <= s - 1 /\ s - 1 <= seas_tol) /\
+  verify_ok r = true.
+Proof.
+  unfold row_ok. intro H. apply andb_true_iff in H as [H Hex]. apply andb_true_iff in H as [_ Hv].
+  unfold extra_ok in Hex. apply andb_true_iff in Hex as [Hc Hs]. split; [|split; [|exact Hv]].
+  - intros c v Hin. rewrite forallb_forall in Hc. apply (cell_extra_ok_spec c v). apply (Hc (c, v) Hin).
+  - apply o_le_some_r in Hs as [a [Ha Hle]].
+    destruct (seasonality_sum r) as [s|]; [|discriminate]. exists s. split; auto.
+    simpl in Ha. inversion Ha; subst a. clear Ha.
+    destruct (Qle_bool 0 (s + -1)) eqn:E.
+    + apply Qle_bool_iff in E. lra.
+    + assert (~ 0 <= s + -1) by (intro X; apply Qle_bool_iff in X; congruence). lra.
+Qed.
+
+Lemma table_ok_rows cols raws :
+  table_ok cols raws = true -> forall r, In r raws -> row_ok (decode_row cols r) = true.
+Proof.
+  unfold table_ok. intro H. apply andb_true_iff in H as [_ H]. rewrite forallb_forall in H. exact H.
+Qed.
+
+Lemma str_mem_In' s l : str_mem s l = true <-> In s l.
+Proof.
+  unfold str_mem. rewrite existsb_exists. split.
+  - intros [x [Hin He]]. apply String.eqb_eq in He. subst; auto.
+  - intro H; exists s; split; auto. apply String.eqb_refl.
+Qed.
+
+Lemma nodup_b_NoDup l : nodup_b l = true -> NoDup l.
+Proof.
+  induction l as [|x l IH]; simpl; intro H; [constructor|].
+  apply andb_true_iff in H as [H1 H2]. constructor; auto.
+  apply negb_true_iff in H1. intro Hin. apply str_mem_In' in Hin. congruence.
+Qed.
+
+Lemma same_set_b_spec a b : same_set_b a b = true -> forall x, In x a <-> In x b.
+Proof.
+  unfold same_set_b. intro H. apply andb_true_iff in H as [H1 H2].
+  rewrite forallb_forall in H1, H2. intro x. split; intro Hin.
+  - apply str_mem_In'. auto.
+  - apply str_mem_In'. auto.
+Qed.
+
+(* ------------------------------------------------------------------ weighted_average_percentages *)
+
+Definition vsum_pw (vp : list (Q * Q)) : Q := fold_right (fun pw s => fst pw * snd pw + s) 0 vp.
+Definition vsum_w (vp : list (Q * Q)) : Q := fold_right (fun pw s => snd pw + s) 0 vp.
+Definition sumr (l : list Q) : Q := fold_right Qplus 0 l.
+
+Lemma qsum_sumr_gen l : forall a, fold_left Qplus l a == a + sumr l.
+Proof.
+  induction l as [|x l IH]; intro a; simpl; [ring|]. rewrite IH. ring.
+Qed.
+Lemma qsum_sumr l : qsum l == sumr l.
+Proof. unfold qsum. rewrite qsum_sumr_gen. ring. Qed.
+
+(* loop invariant *)
+Lemma wloop_inv ps : forall ws n mean rej nrej n' mean' rej' nrej',
+  List.length ps = List.length ws ->
+  wloop ps ws (n, mean, rej, nrej) = Some (n', mean', rej', nrej') ->
+  n' = (n + List.length (valid_pairs ps ws))%nat /\
+  mean' == mean + vsum_pw (valid_pairs ps ws) /\
+  nrej' == nrej + vsum_w (valid_pairs ps ws) /\
+  rej' + nrej' == rej + nrej + sumr ws /\
+  Forall (fun pw => 0 <= snd pw) (valid_pairs ps ws) /\
+  Forall (fun w => 0 <= w) ws.
+Proof.
+  induction ps as [|p ps IH]; intros ws n mean rej nrej n' mean' rej' nrej' Hl H.
+  - destruct ws; [|discriminate]. simpl in H. inversion H; subst. simpl.
+    repeat split; try lia; try ring; constructor.
+  - destruct ws as [|w ws]; [discriminate|]. simpl in Hl. injection Hl as Hl.
+    cbn [wloop] in H. destruct (Qle_bool 0 w && Qle_bool w 1) eqn:Ew; [|discriminate].
+    apply andb_true_iff in Ew as [Ew0 Ew1]. apply Qle_bool_iff in Ew0.
+    cbn [valid_pairs]. destruct (impossible p) eqn:Ei.
+    + destruct (IH _ _ _ _ _ _ _ _ _ Hl H) as [I1 [I2 [I3 [I4 [I5 I6]]]]].
+      repeat split; auto.
+      * rewrite I4. simpl. ring.
+    + destruct (IH _ _ _ _ _ _ _ _ _ Hl H) as [I1 [I2 [I3 [I4 [I5 I6]]]]].
+      repeat split.
+      * simpl. lia.
+      * rewrite I2. simpl. ring.
+      * rewrite I3. simpl. ring.
+      * rewrite I4. simpl. ring.
+      * constructor; auto.
+      * constructor; auto.
+Qed.
+
+(* a weighted sum with non-negative weights lies between lo * W and hi * W *)
+Lemma vsum_bounds lo hi vp :
+  Forall (fun pw => 0 <= snd pw) vp -> (forall pw, In pw vp -> lo <= fst pw /\ fst pw <= hi) ->
+  lo * vsum_w vp <= vsum_pw vp /\ vsum_pw vp <= hi * vsum_w vp.
+Proof.
+  induction vp as [|[p w] vp IH]; intros Hw Hr; simpl; [lra|].
+  inversion Hw; subst. simpl in *. destruct IH as [I1 I2]; auto.
+  destruct (Hr (p, w) (or_introl eq_refl)) as [R1 R2]. simpl in *. split; nra.
+Qed.
+
+Lemma valid_pairs_In ps : forall ws p w, In (p, w) (valid_pairs ps ws) -> In p ps /\ impossible p = false.
+Proof.
+  induction ps as [|p0 ps IH]; intros ws p w H; [destruct ws; contradiction|].
+  destruct ws as [|w0 ws]; [contradiction|]. cbn [valid_pairs] in H.
+  destruct (impossible p0) eqn:E.
+  - destruct (IH _ _ _ H). split; auto. right; auto.
+  - destruct H as [H|H].
+    + inversion H; subst. split; auto. left; auto.
+    + destruct (IH _ _ _ H). split; auto. right; auto.
+Qed.
+
+(* what an accepted, non-sentinel call computed *)
+Lemma wavg_gen_ok spec ps ws r :
+  wavg_gen spec ps ws = WOk r ->
+  let vp := valid_pairs ps ws in
+  let rej := sumr ws - vsum_w vp in
+  (vp = [] /\ r = sentinel) \/
+  (vp <> [] /\ Qeq_bool (1 - rej) 0 = true /\ r = sentinel) \/
+  (vp <> [] /\ ~ 1 - rej == 0 /\
+   r_lo <= vsum_w vp / (1 - rej) /\ vsum_w vp / (1 - rej) <= r_hi /\
+   Forall (fun pw => 0 <= snd pw) vp /\
+   r == vsum_pw vp / (if spec then vsum_w vp else 1 - rej)).
+Proof.
+  intro H. cbv zeta. set (vp := valid_pairs ps ws). set (rej := sumr ws - vsum_w vp). unfold wavg_gen in H.
+  destruct (Nat.eqb_spec (List.length ps) (List.length ws)) as [Hl|]; cbn [negb] in H; [|discriminate].
+  destruct (Qle_bool (qsum ws) w_hi && Qlt_b w_lo (qsum ws)); cbn [negb] in H; [|discriminate].
+  destruct (wloop ps ws (0%nat, 0, 0, 0)) as [[[[n mean] rj] nrej]|] eqn:Ew; [|discriminate].
+  destruct (wloop_inv _ _ _ _ _ _ _ _ _ _ Hl Ew) as [I1 [I2 [I3 [I4 [I5 I6]]]]].
+  fold vp in I1, I2, I3, I5.
+  assert (Hrej : rj == rej) by (unfold rej; lra).
+  destruct (Nat.eqb_spec n 0) as [Hn|Hn].
+  - left. inversion H as [Hr]. split; [|reflexivity]. apply length_zero_iff_nil. lia.
+  - assert (Hvp : vp <> []) by (intro E; apply length_zero_iff_nil in E; lia).
+    destruct (Qeq_bool (1 - rj) 0) eqn:Eq.
+    + right; left. inversion H as [Hr]. split; auto. split; [|reflexivity].
+      apply Qeq_bool_iff in Eq. apply Qeq_bool_iff. lra.
+    + right; right.
+      destruct (Qle_bool r_lo (nrej / (1 - rj)) && Qle_bool (nrej / (1 - rj)) r_hi) eqn:Ea; cbn [negb] in H; [|discriminate].
+      apply andb_true_iff in Ea as [Ea1 Ea2]. apply Qle_bool_iff in Ea1, Ea2.
+      inversion H as [Hr]. clear H.
+      assert (Hne : ~ 1 - rj == 0) by (intro X; apply Qeq_bool_iff in X; congruence).
+      assert (Hnr : nrej == vsum_w vp) by lra.
+      assert (Hm : mean == vsum_pw vp) by lra.
+      assert (Hd : 1 - rj == 1 - rej) by lra.
+      assert (Hq : vsum_w vp / (1 - rej) == nrej / (1 - rj)) by (rewrite Hnr, Hd; reflexivity).
+      split; auto. split; [intro X; apply Hne; lra|].
+      split; [rewrite Hq; exact Ea1|]. split; [rewrite Hq; exact Ea2|]. split; [exact I5|].
+      rewrite <- Hm. destruct spec; [rewrite <- Hnr|rewrite <- Hd]; reflexivity.
+Qed.
+
+(* positivity of both denominators on the accepted path *)
+Lemma accepted_denoms W R : 0 <= W -> ~ R == 0 -> r_lo <= W / R -> 0 < W /\ 0 < R.
+Proof.
+  intros HW HR H. unfold r_lo in H.
+  assert (HWR : W == (W / R) * R) by (field; exact HR).
+  destruct (Qlt_le_dec 0 R) as [RP|RN].
+  - split; auto. assert (0 < W / R) by lra. nra.
+  - assert (R < 0) by lra. exfalso.
+    assert (9999 # 10000 <= W / R) by exact H.
+    assert (0 < W / R) by lra. nra.
+Qed.
+
+Lemma vsum_w_nonneg vp : Forall (fun pw => 0 <= snd pw) vp -> 0 <= vsum_w vp.
+Proof. induction 1; simpl; lra. Qed.
+
+(* F6 variant: the result is the weighted mean of the valid inputs, hence within their range *)
+Lemma wavg_spec_range ps ws r lo hi :
+  wavg_spec ps ws = WOk r -> r <> sentinel ->
+  (forall p, In p ps -> impossible p = false -> lo <= p /\ p <= hi) ->
+  lo <= r /\ r <= hi.
+Proof.
+  intros H Hs Hr. apply wavg_gen_ok in H.
+  destruct H as [[_ E]|[[_ [_ E]]|[Hvp [Hne [A1 [A2 [Hw Hv]]]]]]]; try congruence.
+  set (vp := valid_pairs ps ws) in *. set (R := 1 - (sumr ws - vsum_w vp)) in *.
+  destruct (accepted_denoms (vsum_w vp) R (vsum_w_nonneg _ Hw) Hne A1) as [WP RP].
+  destruct (vsum_bounds lo hi vp Hw) as [B1 B2].
+  { intros [p w] Hin. apply valid_pairs_In in Hin as [Hin Hi]. simpl. apply Hr; auto. }
+  rewrite Hv. split.
+  - apply Qle_shift_div_l; auto.
+  - apply Qle_shift_div_r; auto.
+Qed.
+
+(* the code as it is: exact range when the weights sum to exactly 1 *)
+Lemma wavg_range_sum1 ps ws r lo hi :
+  wavg ps ws = WOk r -> r <> sentinel -> qsum ws == 1 ->
+  (forall p, In p ps -> impossible p = false -> lo <= p /\ p <= hi) ->
+  lo <= r /\ r <= hi.
+Proof.
+  intros H Hs H1 Hr. apply wavg_gen_ok in H.
+  destruct H as [[_ E]|[[_ [_ E]]|[Hvp [Hne [A1 [A2 [Hw Hv]]]]]]]; try congruence.
+  set (vp := valid_pairs ps ws) in *. rewrite qsum_sumr in H1.
+  assert (HR : 1 - (sumr ws - vsum_w vp) == vsum_w vp) by lra.
+  set (R := 1 - (sumr ws - vsum_w vp)) in *.
+  destruct (accepted_denoms (vsum_w vp) R (vsum_w_nonneg _ Hw) Hne A1) as [WP RP].
+  destruct (vsum_bounds lo hi vp Hw) as [B1 B2].
+  { intros [p w] Hin. apply valid_pairs_In in Hin as [Hin Hi]. simpl. apply Hr; auto. }
+  rewrite Hv. split.
+  - apply Qle_shift_div_l; auto. rewrite HR. exact B1.
+  - apply Qle_shift_div_r; auto. rewrite HR. exact B2.
+Qed.
+
+(* the code as it is, for every accepted weight vector: r = m * k with m in the range of the valid inputs and
+   k = (valid weight) / (1 - rejected weight) in [0.9999, 1.0001] (the function's own assertion) *)
+Lemma wavg_range_partial ps ws r lo hi :
+  wavg ps ws = WOk r -> r <> sentinel ->
+  (forall p, In p ps -> impossible p = false -> lo <= p /\ p <= hi) ->
+  exists m k, r == m * k /\ lo <= m /\ m <= hi /\ r_lo <= k /\ k <= r_hi.
+Proof.
+  intros H Hs Hr. apply wavg_gen_ok in H.
+  destruct H as [[_ E]|[[_ [_ E]]|[Hvp [Hne [A1 [A2 [Hw Hv]]]]]]]; try congruence.
+  set (vp := valid_pairs ps ws) in *. set (R := 1 - (sumr ws - vsum_w vp)) in *.
+  destruct (accepted_denoms (vsum_w vp) R (vsum_w_nonneg _ Hw) Hne A1) as [WP RP].
+  destruct (vsum_bounds lo hi vp Hw) as [B1 B2].
+  { intros [p w] Hin. apply valid_pairs_In in Hin as [Hin Hi]. simpl. apply Hr; auto. }
+  exists (vsum_pw vp / vsum_w vp), (vsum_w vp / R). split; [|split; [|split; [|split]]]; auto.
+  - rewrite Hv. field. split; lra.
+  - apply Qle_shift_div_l; auto.
+  - apply Qle_shift_div_r; auto.
+Qed.
+
+(* impossible values are ignored: replacing one impossible value by another changes nothing *)
+Definition same_or_both_impossible (p p' : Q) : Prop :=
+  p = p' \/ (impossible p = true /\ impossible p' = true).
+
+Lemma wloop_ignores ps : forall ps' ws st,
+  Forall2 same_or_both_impossible ps ps' -> wloop ps ws st = wloop ps' ws st.
+Proof.
+  induction ps as [|p ps IH]; intros ps' ws st HF; inversion HF; subst; [reflexivity|].
+  destruct ws as [|w ws]; [reflexivity|]. cbn [wloop]. destruct st as [[[n mean] rej] nrej].
+  destruct (Qle_bool 0 w && Qle_bool w 1); [|reflexivity].
+  destruct H1 as [->|[E1 E2]].
+  - destruct (impossible y); apply IH; auto.
+  - rewrite E1, E2. apply IH; auto.
+Qed.
+
+Lemma F2_length {A B} (R : A -> B -> Prop) l l' : Forall2 R l l' -> List.length l = List.length l'.
+Proof. induction 1; simpl; auto. Qed.
+
+Lemma wavg_gen_ignores spec ps ps' ws :
+  Forall2 same_or_both_impossible ps ps' -> wavg_gen spec ps ws = wavg_gen spec ps' ws.
+Proof.
+  intro HF. unfold wavg_gen. rewrite (F2_length _ _ _ HF), (wloop_ignores ps ps' ws _ HF). reflexivity.
+Qed.
+
+(* only impossible values -> the sentinel 9.37e36 *)
+Lemma wavg_all_invalid spec ps ws r :
+  wavg_gen spec ps ws = WOk r -> (forall p, In p ps -> impossible p = true) -> r = sentinel.
+Proof.
+  intros H Hall. apply wavg_gen_ok in H.
+  destruct H as [[_ E]|[[_ [_ E]]|[Hvp _]]]; auto.
+  exfalso. destruct (valid_pairs ps ws) as [|[p w] vp] eqn:E; [congruence|].
+  assert (Hin : In (p, w) (valid_pairs ps ws)) by (rewrite E; left; auto).
+  apply valid_pairs_In in Hin as [Hin Hi]. rewrite (Hall p Hin) in Hi. discriminate.
+Qed.
